@@ -61,7 +61,8 @@ def leaked_sockets(s):
     gc.collect(1)
     if len(s.kern.socks) - n_open(s) > 0:
         gc.collect()
-    return len(s.kern.socks) - n_open(s)
+    pk = s.parked_fds() if hasattr(s, 'parked_fds') else set()
+    return len([fd for fd in s.kern.socks if fd not in pk]) - n_open(s)
 
 
 def run_history(cfg, hist, final=True):
@@ -121,7 +122,6 @@ def run_history(cfg, hist, final=True):
             if obs.result[0] == 'hang':
                 vio.append(('terminates', obs.result[1]))
         if a in ('close', 'newloop', 'idle') or i == len(hist) - 1:
-            s.service_parked()
             k = leaked_sockets(s)
             if k > 0:
                 vio.append(('no-socket-leak', f'{k} socket(s) open without an open transport after {name}'))
